@@ -7,7 +7,8 @@ Import ListNotations.
 (* ---- sources (type_token.rs: VecOps) ---- *)
 Record source := {
   s_tag : tag;
-  s_len : nat;                          (* VecOps::len *)
+  s_len : nat;                          (* VecOps::len(..).unwrap_or(0): what the runner clamps with *)
+  s_hint : option nat;                  (* VecOps::len as the planner's estimate_source_len sees it *)
   s_split : nat -> list (list val);     (* VecOps::split(n) *)
   s_all : list val                      (* VecOps::clone_any *)
 }.
@@ -18,16 +19,18 @@ Definition vec_split (data : list val) (n : nat) : list (list val) :=
   if (n <=? 1)%nat || (length data <=? 1)%nat then [data]
   else chunks (div_ceil (length data) n) data.
 Definition vec_source (t : tag) (data : list val) : source :=
-  {| s_tag := t; s_len := length data; s_split := vec_split data; s_all := data |}.
+  {| s_tag := t; s_len := length data; s_hint := Some (length data); s_split := vec_split data;
+     s_all := data |}.
 (* streaming sources (io/jsonl.rs JsonlVecOps etc.): split ignores n and yields one partition per
    shard; len is the number of LINES (may exceed the number of records) *)
 Definition sharded_source (t : tag) (shards : list (list val)) (total_len : nat) : source :=
-  {| s_tag := t; s_len := total_len; s_split := fun _ => shards; s_all := concat shards |}.
+  {| s_tag := t; s_len := total_len; s_hint := Some total_len; s_split := fun _ => shards;
+     s_all := concat shards |}.
 
 (* a user-written VecOps (from_custom_source) whose `len` answers None ("size unknown") but which
    splits and clones like a Vec: the runner then uses `unwrap_or(0)` for the length *)
 Definition nolen_source (t : tag) (data : list val) : source :=
-  {| s_tag := t; s_len := 0; s_split := vec_split data; s_all := data |}.
+  {| s_tag := t; s_len := 0; s_hint := None; s_split := vec_split data; s_all := data |}.
 
 (* ---- a combiner as stored in a node: accumulator type is existential ---- *)
 Record vcomb := { vc_A : Type; vc_c : combiner val vc_A val }.
